@@ -86,7 +86,15 @@ static std::string enc(long v) {
   if (v == 0) {
     return "";
   }
-  return std::to_string(v) + std::string(static_cast<size_t>(v % 61), 'x');
+  std::string filler(static_cast<size_t>(v % 61), 'x');
+  if (v % 4 == 3) {
+    // binary payload: embedded / trailing NUL bytes and other non-printable characters (same length, so the
+    // SSO / heap boundaries stay where they are)
+    for (size_t i = 0; i < filler.size(); ++i) {
+      filler[i] = i % 3 == 0 ? '\0' : (i % 3 == 1 ? '\x01' : '\xff');
+    }
+  }
+  return std::to_string(v) + filler;
 }
 template <typename S>
 static long dec_str(const S& s) {
@@ -936,6 +944,7 @@ struct StrRunner {
   using S = MonotonicBasicString<char, std::char_traits<char>, R>;
   using ST = ReusableTraits<S>;
   std::unique_ptr<R> res;
+  std::unique_ptr<R> res2;  // a second resource: sources of cross-allocator assignments live here
   S* s {nullptr};
   std::string ref;
   typename ST::AllocationMetadata meta;
@@ -943,6 +952,7 @@ struct StrRunner {
   StrRunner() { fresh(); }
   void fresh() {
     res.reset(new R);
+    res2.reset(new R);
     s = MonotonicAllocator<S, R> {*res}.create();
     ref.clear();
     meta = typename ST::AllocationMetadata {};
@@ -976,7 +986,7 @@ struct StrRunner {
     return r;
   }
   bool handles(const std::vector<std::string>& w) {
-    static const std::set<std::string> cmds {"snew", "sassign", "sappend", "sclear", "sreserve", "sresizeu", "smeta", "sremeta"};
+    static const std::set<std::string> cmds {"snew", "sassign", "sappend", "sclear", "sreserve", "sresizeu", "smeta", "sremeta", "smove"};
     return !w.empty() && cmds.count(w[0]) != 0;
   }
   std::string step(const std::vector<std::string>& w) {
@@ -993,14 +1003,49 @@ struct StrRunner {
       return show("");
     }
     if (c == "sassign") {
+      // every way of giving a MonotonicBasicString a new value that must keep its own buffer
       std::string x = chars(w, 1);
-      if (x.size() % 2) {
-        *s = x;
-      } else {
-        s->assign(x.data(), x.size());
+      MonotonicAllocator<char, R> same {*res}, other {*res2};
+      switch ((x.size() + (x.empty() ? 0 : static_cast<unsigned char>(x[0]))) % 7) {
+        case 0:
+          *s = x;  // operator=(const std::basic_string<C, traits, A>&)
+          break;
+        case 1:
+          s->assign(x.data(), x.size());  // const char* + length
+          break;
+        case 2:
+          *s = std::string_view(x);  // std::basic_string::operator=(string_view) via `using Base::operator=`
+          break;
+        case 3: {
+          S tmp(x, same);  // converting constructor, then copy assignment from another monotonic string
+          *s = tmp;
+          break;
+        }
+        case 4: {
+          S tmp(x, other);  // move assignment across resources degrades to a copy
+          *s = std::move(tmp);
+          break;
+        }
+        case 5: {
+          S t0(x, other);
+          S tmp(std::move(t0), same);  // MonotonicBasicString(MonotonicBasicString&&, allocator) across resources
+          *s = tmp;
+          break;
+        }
+        default:
+          s->assign(x.begin(), x.end());  // iterator range
+          break;
       }
       ref = x;
       keep("assign");
+      return show(extra);
+    }
+    if (c == "smove") {
+      // move assignment on the same resource swaps buffers: the string takes the source's capacity
+      std::string x = chars(w, 1);
+      S tmp(x, MonotonicAllocator<char, R> {*res});
+      *s = std::move(tmp);
+      ref = x;
       return show(extra);
     }
     if (c == "sappend") {
